@@ -1223,6 +1223,105 @@ def _m_chunks(ev, a, t, d):
     return ("iter", ("chunks", a[0], a[1]))
 
 
+def parse_byte_literal(s):
+    """bytes of a Rust byte-string literal as pretty-printed by rustc (backslash-x escapes)"""
+    if not (s.startswith('b"') and s.endswith('"')):
+        return None
+    s = s[2:-1]
+    out = bytearray()
+    i = 0
+    while i < len(s):
+        c = s[i]
+        if c == "\\":
+            n = s[i + 1]
+            if n == "x":
+                out.append(int(s[i + 2:i + 4], 16))
+                i += 4
+                continue
+            out.append({"n": 10, "r": 13, "t": 9, "0": 0, "\\": 92, '"': 34, "'": 39}[n])
+            i += 2
+            continue
+        out += c.encode("utf-8")
+        i += 1
+    return bytes(out)
+
+
+def parse_fmt_template(b):
+    """decode core::fmt::Arguments' byte template into a tuple of ('lit', text) | ('arg', flags, width, precision, index)"""
+    out = []
+    i = 0
+    nxt = 0
+    while i < len(b):
+        n = b[i]
+        i += 1
+        if n == 0:
+            break
+        if n < 0x80:
+            out.append(("lit", b[i:i + n].decode("utf-8", "replace")))
+            i += n
+        elif n == 0x80:
+            ln = int.from_bytes(b[i:i + 2], "little")
+            i += 2
+            out.append(("lit", b[i:i + ln].decode("utf-8", "replace")))
+            i += ln
+        else:
+            flags = width = prec = None
+            idx = nxt
+            if n & 1:
+                flags = int.from_bytes(b[i:i + 4], "little")
+                i += 4
+            if n & 2:
+                width = int.from_bytes(b[i:i + 2], "little")
+                i += 2
+            if n & 4:
+                prec = int.from_bytes(b[i:i + 2], "little")
+                i += 2
+            if n & 8:
+                idx = int.from_bytes(b[i:i + 2], "little")
+                i += 2
+            out.append(("arg", flags, ("dyn", width) if n & 16 else width, ("dyn", prec) if n & 32 else prec, idx))
+            nxt = idx + 1
+    # merge adjacent literals
+    merged = []
+    for x in out:
+        if merged and x[0] == "lit" and merged[-1][0] == "lit":
+            merged[-1] = ("lit", merged[-1][1] + x[1])
+        else:
+            merged.append(x)
+    return tuple(merged)
+
+
+def _m_fmt_args_new(ev, a, t, d):
+    tpl = a[0]
+    raw = None
+    if tpl[0] == "const":
+        raw = parse_byte_literal(tpl[1])
+    if raw is None:
+        return ("call", "core::fmt::Arguments::new", tuple(a))
+    args = a[1][1] if a[1][0] == "array" else (a[1],)
+    return ("fmtargs", parse_fmt_template(raw), tuple(args))
+
+
+def _m_fmt_from_str(ev, a, t, d):
+    if is_c(a[0]):
+        return ("fmtargs", (("lit", a[0][1]),), ())
+    return ("call", "core::fmt::Arguments::from_str", tuple(a))
+
+
+def _m_format(ev, a, t, d):
+    if a[0][0] == "fmtargs":
+        return ("fmt", a[0][1], a[0][2])
+    return ("call", "alloc::fmt::format", tuple(a))
+
+
+def _m_disp(ev, a, t, d):
+    return ("disp", a[0])
+
+
+def _m_dbg(ev, a, t, d):
+    return ("dbg", a[0])
+
+
 def _m_iop(name):
     def f(ev, a, t, d):
         return ("iop", name, a[0], a[1] if len(a) > 1 else UNIT)
@@ -1257,6 +1356,12 @@ DEFAULT_MODELS = {
     "<alloc::string::String as core::ops::deref::DerefMut>::deref_mut": _ident,
     "alloc::vec::Vec::<T, A>::as_mut_slice": _ident,
     "core::array::<impl [T; N]>::as_slice": _ident,
+    "core::hint::must_use": _ident,
+    "core::fmt::Arguments::<'a>::new": _m_fmt_args_new,
+    "core::fmt::Arguments::<'a>::from_str": _m_fmt_from_str,
+    "alloc::fmt::format": _m_format,
+    "core::fmt::rt::Argument::<'_>::new_display": _m_disp,
+    "core::fmt::rt::Argument::<'_>::new_debug": _m_dbg,
     "<alloc::boxed::Box<T, A> as core::clone::Clone>::clone": _ident,
     "<alloc::vec::Vec<T, A> as core::clone::Clone>::clone": _ident,
     "<alloc::string::String as core::clone::Clone>::clone": _ident,
